@@ -176,7 +176,10 @@ func zzC17_load() {
 		vObserve("bycode.found", zzB2U(gerr == nil))
 		if got != nil {
 			vObserve("bycode.vendor", uint64(got.VendorID))
-			vObserveBytes("bycode.name", []byte(got.Name))
+			if gerr == nil {
+				// (the placeholder's name is built by fmt.Sprintf, which the engine stubs)
+				vObserveBytes("bycode.name", []byte(got.Name))
+			}
 		}
 		if want != nil {
 			vAssert(gerr == nil && got != nil, "lookup by code resolves when the application, a parent or base defines the code")
